@@ -12,4 +12,56 @@ CHECKS = {
     },
 }
 
+CHECKS.update({
+    "C01": {
+        "level": "exploration",
+        "technique": "runtime monitoring: specification-model oracle over generated project trees, real `reuse lint --json` in process (and through the real worker pool), EACCES failpoints from an audit hook",
+        "text": "compliant-by-construction trees with 0-6 injected defects of ten kinds are linted by the real CLI; the eight issue "
+                "collections, summary.compliant and the exit status are compared with an independent model of the specification "
+                "computed from the generation recipe. 400 (quick) / 25 000 (thorough) trees; all defect pairs forced in thorough.",
+        "note": "trusted: the spec model in vlib/trees.py; only plain forms of each dimension (own-line tags, exact-path tables); "
+                "held on the executions produced, not a proof over all trees",
+    },
+    "C04": {
+        "level": "exploration",
+        "technique": "runtime monitoring: precedence-model oracle over an enumerated finite product of source configurations, observed in `reuse lint --json` items (value, source, source_type)",
+        "text": "own information x .license sibling x chains of nested REUSE.toml levels: every cell with <= 2 levels (quick, 5 070) or 3 "
+                "levels (thorough, 65 910) is built on disk and linted; the reported items must equal those the precedence model "
+                "derives; two-table levels and dep5 sampled; dep5+REUSE.toml must be rejected.",
+        "note": "trusted: the precedence model written from the statement; grey: contribution of REUSE.toml files outside an override "
+                "(only presence of the override and absence of shadowed sources asserted)",
+    },
+    "C05": {
+        "level": "exploration",
+        "technique": "runtime monitoring: reference-NFA oracle (narrow/wide sandwich) on the real AnnotationsItem.matches, icontract post-condition during real lint runs",
+        "text": "all globs up to length 4 (quick) / 6 (thorough) over {a . / * \\} against all paths up to length 5 / 6 over a six-letter "
+                "alphabet, wildcard instantiations and random long globs over a wide alphabet; narrow(g,p) => impl => wide(g,p). "
+                "Bounded path quantifier: language inclusion itself is a static analysis outside this technique family.",
+        "note": "trusted: models/glob_ref.py; a defect whose shortest witness is longer than the bound and missed by the sampled paths "
+                "is not seen; trailing lone backslash is grey",
+    },
+    "C06": {
+        "level": "exploration",
+        "technique": "runtime monitoring: set-algebra oracle over used/provided identifiers known from the recipe, observed in `reuse lint --json`",
+        "text": "trees of ~45 identifiers each, every identifier assigned a (class, use, provision) cell; the five licence collections "
+                "and used_licenses must equal the set algebra of the statement. Thorough sweeps the whole bundled SPDX list.",
+        "note": "trusted: identifier classes from the bundled JSON data; grey cells listed in the evidence assumptions are not generated",
+    },
+    "C13": {
+        "level": "exploration",
+        "technique": "runtime monitoring: relational oracle - four lint formats, JSON summary vs JSON lists, and lint-file vs the restriction of lint, on one project state",
+        "text": "multi-defect trees are linted as --json/--plain/--lines/--quiet/default and through lint-file over random subsets from "
+                "three working directories; all views must agree per category and with the exit status. No model of the tool needed.",
+        "note": "trusted: the parsers of the --plain / --lines wording; names with newline or ': ' not generated",
+    },
+    "C18": {
+        "level": "exploration",
+        "technique": "runtime monitoring: tag-value parser + truth-table equivalence + sha1 + cross-check with lint --json on the real `reuse spdx` output",
+        "text": "the document of every generated tree is parsed; sections vs covered files, SPDXID uniqueness, one DESCRIBES each, "
+                "SHA-1 of the bytes, identifiers and copyright lines vs lint, LicenseConcluded equivalent to the conjunction under all "
+                "truth assignments, LicenseRef texts verbatim.",
+        "note": "trusted: models/spdx_tv.py as stand-in for an SPDX validator; unreadable files and '</text>' inside licence texts not generated",
+    },
+})
+
 NOT_APPLICABLE = {}
